@@ -2,20 +2,20 @@
 # Confirm a seeded change using the full-suite run already made in the worktree (nextest junit):
 # demo fails with / passes without the change; every stable-baseline test passed in that run, and
 # those that did not (time-outs under load) are re-run alone here.
-# usage: confirm_fast.sh <worktree> <demo test target>
+# usage: confirm_fast.sh <worktree> <demo test target> [cargo package of the demo, default shuttle]
 set -u
-WT=$1; DEMO=$2
+WT=$1; DEMO=$2; PKG=${3:-shuttle}
 cd "$WT" || exit 2
 export CARGO_TARGET_DIR="$WT/target" CARGO_NET_OFFLINE=true
 OUT="$WT/SEED/confirm.log"
 {
-[ -f "shuttle/tests/$DEMO.rs" ] || cp "SEED/$DEMO.rs" "shuttle/tests/$DEMO.rs"
-git diff -- . ':!shuttle/tests' | diff -q - SEED/patch.diff >/dev/null && echo "worktree change == SEED/patch.diff" || { echo "WARNING: worktree change differs from SEED/patch.diff; re-applying"; git checkout -- . ; git apply SEED/patch.diff; }
+[ "$PKG" != shuttle ] || [ -f "shuttle/tests/$DEMO.rs" ] || cp "SEED/$DEMO.rs" "shuttle/tests/$DEMO.rs"
+git diff -- . ':!shuttle/tests' ':!*/tests/demo_*' | diff -q - SEED/patch.diff >/dev/null && echo "worktree change == SEED/patch.diff" || { echo "WARNING: worktree change differs from SEED/patch.diff; re-applying"; git checkout -- . ; git apply SEED/patch.diff; }
 echo "== demo WITH the change (expected: fails)"
-cargo test -p shuttle --offline --test "$DEMO" -j4 -- --test-threads=2 2>&1 | grep -E "^test |test result" | head -20
+cargo test -p "$PKG" --offline --test "$DEMO" -j4 -- --test-threads=2 2>&1 | grep -E "^test |test result" | head -20
 echo "== demo WITHOUT the change (expected: passes)"
 git apply -R SEED/patch.diff && {
-  cargo test -p shuttle --offline --test "$DEMO" -j4 -- --test-threads=2 2>&1 | grep -E "^test |test result" | head -20
+  cargo test -p "$PKG" --offline --test "$DEMO" -j4 -- --test-threads=2 2>&1 | grep -E "^test |test result" | head -20
   git apply SEED/patch.diff
 }
 echo "== repository test suite WITH the change: junit of the run made in this worktree"
